@@ -1,30 +1,59 @@
 """C17 — materialization boundaries are transparent."""
 from __future__ import annotations
 
+import functools
 import itertools
 
 import pandas as pd
 
 from harness import e2e, graphs, programs
 from harness.core import Failure, Family, Support, drive
-from harness.render import Names, rgraph
+from harness.render import Names, rgraph, task_refs
 
 LEAN_MODULES = ["DxModel.Props.C17"]
 GENERATED = []
 TRUSTED = [
-    "harness/render.py canonical text of FromGraph._layer; the imported layer's own tasks are opaque data",
-    "dask's synchronous persist (results embedded in the graph) and Delayed graph conversion (`to_delayed`, `_DelayedExpr._layer`) are exercised, not modelled",
+    "harness/render.py + the `_Lower` canonicaliser in harness/props/c17.py (lower-graph tasks are opaque `t<id>(refs)`, "
+    "identified by structural equality with the task of the graph that was cut)",
+    "dask (outside /repo): the synchronous scheduler behind persist (model: `res i` = value of key `out i`), "
+    "`HighLevelGraph`/`Delayed` plumbing of the legacy `to_delayed` and the legacy `optimize` (model: `cull`; tied on real "
+    "graphs by exact graph equality and the proven `cullCheck`), `new_dd_object`",
+    "`dask.dataframe.utils.check_meta`: its decision is the Lean specification `metaMatches` (validated by the "
+    "conformance family on generated schema pairs); theorems are stated for any `ok : V -> Bool`",
+    "that a computed partition of a collection is a frame-like value (`litOf`): persist of a failing computation raises "
+    "and builds nothing",
 ]
 PARTIAL = [
-    "legacy-dataframe conversion internals (dask.dataframe legacy collections) are outside the model; covered by the round-trip search",
-    "`_DelayedExpr._layer` key renaming (key -> (key, 0)) is tied by the proven checker on the real graph (T3), not by a model of its own",
+    "legacy round trip: `to_legacy_dataframe` / `from_legacy_dataframe` are modelled as what they reduce to — "
+    "`FromGraph(cull(graph of x.optimize()) , divisions, [(name, i)], prefix)` — and tied on real objects; the dask-legacy "
+    "classes in between (`new_dd_object`, `_Frame`, `HighLevelGraph`) and `from_dask_array` are only exercised by the round-trip search",
+    "relative to the query the user wrote, the delayed / persist / legacy theorems take 'the optimised plan computes the "
+    "same partition values' as an explicit hypothesis (discharged by C01_optimize_sound and C14_task on the modelled fragment)",
+    "what the optimiser later does to the imported node is covered by the generic rules (FromGraph is a plain IO "
+    "expression; FromDelayed is PartitionsFiltered: C11) and by the support search, not by a C17 theorem",
+    "names: `_name` prefixes (`key_split(state._name)`, `fromdelayed-`/prefix) are compared on real objects, uniqueness of the "
+    "tokens is C08",
 ]
 EXPLANATION = (
-    "Theorems: alias layer (FromGraph) preserves the value of every imported key for any graph/key list; cut theorem: "
-    "evaluating the upper part of any graph on the materialised values of the lower part equals evaluating the uncut "
-    "graph; task values are functions of the values they read. Tie: exact graph equality of FromGraph._layer; proven "
-    "checker on the graphs of re-imported collections. Support: every cut point of the vetted chains x {persist, "
-    "to_delayed/from_delayed, legacy round trip} x node kind at the cut: result, meta schema and divisions equal the uncut query."
+    "Model (Layers/Boundary.lean): FromGraph (_layer, divisions, npartitions = len(divisions)-1, __dask_keys__), persist "
+    "(postpersist rebuild: layer {key: value}, state.divisions, state.__dask_keys__()), to_delayed (always x.optimize(); "
+    "optimize_graph=True only culls; every Delayed carries the whole graph; Delayed keys are the tuples (name, i)), "
+    "_DelayedExpr._layer (copy, add ((name,i),0), pop (name,i)), FromDelayed (_filtered_task with check_meta/identity, "
+    "_partitions, divisions default/validation), Expr.__dask_graph__ (seen-walk + toolz.merge), the legacy round trip "
+    "(= FromGraph of the culled graph), check_meta's decision. "
+    "Theorems: alias layer; cut theorem and its instance for a query stacked on a collection; cull preserves kept keys; "
+    "FromDelayed value (any shared acyclic graph, any _partitions, incl. the one-partition case where the Delayed's own "
+    "key is popped everywhere); from_delayed(to_delayed(x)) partition i = verify-wrapper(partition i) for both "
+    "optimize_graph variants, any n; persist: embedded layer is literals at exactly the output keys, structure taken "
+    "over, every stacked query evaluates equally over the original graph and over FromGraph(persisted values); legacy "
+    "round trip values/structure; divisions/npartitions of every construct (passed along or unknown with length n+1; "
+    "explicit errors for empty / 'sorted' / wrong length); verify_meta wrapper is identity or explicit error. "
+    "Tie: exact graph equality of the REAL objects (FromGraph._layer, persist().expr, to_delayed(optimize_graph=..), "
+    "from_delayed(..).expr whole graph + own layer + every _DelayedExpr._layer, from_legacy_dataframe(..).expr) with "
+    "__dask_keys__/divisions/npartitions for partition counts 1..6 over real lower graphs (blockwise, fused, cumulative, "
+    "partition-filtered, imported graphs with unreachable keys); conformance of check_meta. "
+    "Support: every cut point of the vetted chains x {persist, to_delayed/from_delayed, legacy round trip} x node kind "
+    "at the cut: result, meta schema and divisions equal the uncut query."
 )
 
 
@@ -210,8 +239,425 @@ def _cases(ctx):
     return cases
 
 
+# --------------------------------------------------------------------------- T2: the real boundary objects
+
+
+def _task_eq(a, b, depth=0):
+    """structural equality of two tasks (two `_layer()` calls build equal but distinct task objects)"""
+    if a is b:
+        return True
+    if type(a) is not type(b) or depth > 8:
+        return False
+    if isinstance(a, pd.DataFrame):
+        return list(a.columns) == list(b.columns) and list(map(str, a.dtypes)) == list(map(str, b.dtypes)) and a.equals(b)
+    if isinstance(a, (pd.Series, pd.Index)):
+        return str(a.dtype) == str(b.dtype) and a.name == b.name and a.equals(b)
+    if isinstance(a, (tuple, list)):
+        return len(a) == len(b) and all(_task_eq(x, y, depth + 1) for x, y in zip(a, b))
+    if isinstance(a, dict):
+        return list(a) == list(b) and all(_task_eq(a[k], b[k], depth + 1) for k in a)
+    if isinstance(a, functools.partial):
+        return a.func is b.func and _task_eq(a.args, b.args, depth + 1) and _task_eq(a.keywords, b.keywords, depth + 1)
+    try:
+        return bool(a == b)
+    except Exception:  # noqa: BLE001
+        return False
+
+
+class _Lower:
+    """Canonical names for the graph that is cut: key -> k<id>; its tasks are opaque `t<id>(refs)` and must be the
+    the tasks of the lower graph (structurally) wherever they re-appear (under the same key or under `(key, 0)`)."""
+
+    def __init__(self, g0: dict):
+        self.g0 = dict(g0)
+        self.ids = {k: i for i, k in enumerate(sorted(self.g0, key=repr))}
+
+    def has(self, k):
+        try:
+            return k in self.ids
+        except TypeError:
+            return False
+
+    def listing(self):
+        ents = []
+        for k, i in sorted(self.ids.items(), key=lambda kv: kv[1]):
+            ents.append(f"{i}:{','.join(str(self.ids[r]) for r in task_refs(self.g0[k], self.g0))}")
+        return ";".join(ents) or "-"
+
+    def rk(self, k):
+        return f"k{self.ids[k]}"
+
+    def rlower(self, k, v):
+        if not _task_eq(v, self.g0[k]):
+            return "?changed"
+        return f"t{self.ids[k]}(" + ",".join(self.rk(r) for r in task_refs(v, self.g0)) + ")"
+
+    def rarg(self, a):
+        if self.has(a):
+            return self.rk(a)
+        if isinstance(a, tuple) and len(a) == 2 and a[1] == 0 and self.has(a[0]):
+            return f"w{self.ids[a[0]]}"
+        return "?arg"
+
+    def rown(self, v):
+        from dask.dataframe.utils import check_meta
+        from dask_expr.io._delayed import identity
+
+        if self.has(v):
+            return f"alias({self.rk(v)})"
+        if isinstance(v, tuple) and v and callable(v[0]):
+            f = v[0]
+            if f is identity:
+                return "identity(" + ",".join(self.rarg(a) for a in v[1:]) + ")"
+            if isinstance(f, functools.partial) and f.func is check_meta and set(f.keywords) == {"meta", "funcname"}:
+                return "check_meta(" + ",".join(self.rarg(a) for a in v[1:]) + ")"
+            return "?fn:" + getattr(f, "__name__", type(f).__name__)
+        if isinstance(v, tuple):
+            return "?tuple"
+        return "lit"
+
+    def rgraph(self, dsk, self_name):
+        lines = set()
+        for k, v in dsk.items():
+            if self.has(k):
+                lines.add(self.rk(k) + "=" + self.rlower(k, v))
+            elif isinstance(k, tuple) and len(k) == 2 and k[1] == 0 and self.has(k[0]):
+                lines.add(f"w{self.ids[k[0]]}=" + self.rlower(k[0], v))
+            elif isinstance(k, tuple) and len(k) == 2 and k[0] == self_name:
+                lines.add(f"@self:{k[1]}=" + self.rown(v))
+            else:
+                lines.add("?key:" + repr(k)[:50])
+        return "|".join(sorted(lines))
+
+
+def _rdivs(d):
+    return ".".join("N" if x is None else str(int(x)) for x in d)
+
+
+def _rself(keys, name):
+    return ",".join(f"@self:{k[1]}" if isinstance(k, tuple) and k[0] == name else "?" + repr(k)[:30] for k in keys)
+
+
+def _fg_text(e, low):
+    """canonical text of a real FromGraph expression (same fields as Driver/Boundary.lean `rFromGraph`)"""
+    dsk = e._layer()
+    keys = e.__dask_keys__()
+    return ("G " + low.rgraph(dsk, e._name) + " ; keys=" + _rself(keys, e._name) + f" ; nparts={e.npartitions}"
+            + " ; divs=" + _rdivs(e.divisions) + " ; dangling=" + _rself([k for k in keys if k not in dsk], e._name))
+
+
+def _pdf(n=60):
+    import numpy as np
+
+    return pd.DataFrame({"a": np.arange(n, dtype="int64"), "b": (np.arange(n, dtype="int64") * 7) % 5,
+                         "s": pd.array(["s%d" % (i % 4) for i in range(n)], dtype="object")})
+
+
+def _fn_inc(x):
+    return x
+
+
+def _imported(n, keys, prefix="imp"):
+    """a collection over a hand-made graph: n literal partitions ('x', i), derived tasks ('y', i) reading them
+    (and, for i > 0, the previous derived task), selected by `keys` — everything else is unreachable"""
+    import dask_expr as dx
+
+    meta = _pdf(0).iloc[:0]
+    layer = {("x", i): _pdf(2) for i in range(n)}
+    for i in range(n):
+        layer[("y", i)] = (_fn_inc, ("x", i)) if i == 0 else (_second, ("x", i), ("y", i - 1))
+    return dx.from_graph(layer, meta, (None,) * (len(keys) + 1), [("y", k) for k in keys], prefix)
+
+
+def _second(x, _y):
+    return x
+
+
+def _pool(ctx, n):
+    """(label, collection) with (about) n partitions: what sits at a cut"""
+    import dask_expr as dx
+
+    x = dx.from_pandas(_pdf(), npartitions=n)
+    out = [("frame", x), ("series_fused", x.a + 1), ("filter", x[x.a > 7]), ("cumsum", x.b.cumsum()),
+           ("index", x.index), ("unknown_div", x.clear_divisions()), ("assign_proj", x.assign(z=x.a * 2)[["z", "b"]])]
+    if n >= 2:
+        out.append(("parts_rev", x.partitions[::-1]))
+        out.append(("parts_gap", x.partitions[[0, n - 1]]))
+        out.append(("imported_rev", _imported(n, list(range(n))[::-1])))
+        out.append(("imported_partial", _imported(n + 1, [n - 1, 0])))
+    out.append(("imported_all", _imported(n, list(range(n)))))
+    if ctx.quick:
+        keep = out[:2] + [o for o in out[2:] if ctx.rng.random() < 0.45 or o[0].startswith("imported_p")]
+        return keep
+    return out
+
+
+def _lower_of(x):
+    xo = x.optimize()
+    g0 = dict(xo.__dask_graph__())
+    return xo, _Lower(g0), [k for k in xo.__dask_keys__()]
+
+
+def fam_fromgraph_struct(ctx):
+    """FromGraph on layers with internal references; keys reversed / partial / repeated; divisions consistent or not"""
+    from dask_expr.io.io import FromGraph
+
+    f = Family("graph_equality[FromGraph: _layer, __dask_keys__, divisions, npartitions]")
+    meta = _pdf(0).iloc[:0]
+    reqs, code, inputs, nt = [], [], [], []
+    for n in range(1, 7):
+        layer = {("x", i): meta for i in range(n)}
+        for i in range(n):
+            layer[("y", i)] = (_fn_inc, ("x", i)) if i == 0 else (_second, ("x", i), ("y", i - 1))
+        low = _Lower(layer)
+        sels = [list(range(n)), list(range(n))[::-1], [n - 1], [0, 0], list(range(0, n, 2))]
+        sels += [ctx.rng.sample(range(n), ctx.rng.randint(1, n)) for _ in range(2 if ctx.quick else 8)]
+        for sel in sels:
+            for dl in sorted({len(sel) + 1, len(sel), len(sel) + 2, 1}):
+                for known in (False, True):
+                    divs = tuple(range(dl)) if known else (None,) * dl
+                    ykeys = [("y", k) for k in sel]
+                    e = FromGraph(layer, meta, divs, ykeys, "imported")
+                    code.append(_fg_text(e, low))
+                    reqs.append(f"boundary fromgraph g={low.listing()} keys={','.join(str(low.ids[k]) for k in ykeys)} "
+                                f"divs={','.join('N' if d is None else str(d) for d in divs)}")
+                    inputs.append({"n": n, "sel": sel, "divs": list(divs)})
+                    nt.append(True)
+    f.compare(inputs, code, drive(reqs), nt)
+    return f
+
+
+def fam_persist(ctx):
+    """the FromGraph that `persist()` really builds: embedded values at the output keys, keys/divisions/count taken over"""
+    from dask.utils import key_split
+    from dask_expr.io.io import FromGraph
+
+    f = Family("graph_equality[persist(): FromGraph(layer of values, state.divisions, state.__dask_keys__(), prefix)]")
+    reqs, code, inputs, nt = [], [], [], []
+    import dask_expr as dx
+
+    for n in range(1, 7):
+        pool = _pool(ctx, n) + [("scalar", dx.from_pandas(_pdf(), npartitions=n).a.sum())]
+        for label, x in pool:
+            for fuse in ((True,) if ctx.quick else (True, False)):
+                state = x.optimize(fuse=fuse)
+                skeys = list(state.__dask_keys__())
+                p = x.persist(fuse=fuse)
+                e = p.expr
+                ids = {k: i for i, k in enumerate(skeys)}
+                lines = set()
+                dsk = e._layer()
+                for k, v in dsk.items():
+                    if k in ids:
+                        lit = not (isinstance(v, tuple) or isinstance(v, str)) and not callable(v)
+                        lines.add(f"k{ids[k]}=" + ("lit" if lit else "?notlit"))
+                    elif isinstance(k, tuple) and k[0] == e._name:
+                        lines.add(f"@self:{k[1]}=" + (f"alias(k{ids[v]})" if v in ids else "?"))
+                    else:
+                        lines.add("?key:" + repr(k)[:40])
+                keys = e.__dask_keys__()
+                ok_type = type(e) is FromGraph and sorted(e.operand("layer")) == sorted(skeys) and list(e.operand("keys")) == skeys
+                prefix_ok = e.operand("name_prefix") == key_split(state._name) and e._name.startswith(key_split(state._name) + "-")
+                same_div = tuple(e.divisions) == tuple(state.divisions) and type(p) is type(x)
+                code.append("G " + "|".join(sorted(lines)) + " ; keys=" + _rself(keys, e._name) + f" ; nparts={e.npartitions}"
+                            + " ; divs=" + _rdivs(e.divisions) + " ; dangling=" + _rself([k for k in keys if k not in dsk], e._name)
+                            + f" ; operands={int(ok_type)} prefix={int(prefix_ok)} divisions_of_state={int(same_div)}")
+                reqs.append(f"boundary persist n={len(skeys)} divs={','.join('N' if d is None else str(int(d)) for d in state.divisions)}")
+                inputs.append({"n": n, "x": label, "fuse": fuse})
+                nt.append(True)
+    model = [m + " ; operands=1 prefix=1 divisions_of_state=1" for m in drive(reqs)]
+    f.compare(inputs, code, model, nt)
+    return f
+
+
+def _delayed_text(ds, low):
+    parts = []
+    for d in ds:
+        parts.append("D key=" + (low.rk(d.key) if low.has(d.key) else "?") + " G " + low.rgraph(d.dask.to_dict(), None))
+    return " ; ".join(parts) + f" ; n={len(ds)} ; cullok=1"
+
+
+def fam_to_delayed(ctx):
+    """x.to_delayed(optimize_graph=…): one Delayed per partition of x.optimize(), key (name, i), the whole (culled) graph"""
+    f = Family("graph_equality[to_delayed(optimize_graph): keys, graph of every Delayed, cull]")
+    reqs, code, inputs, nt = [], [], [], []
+    for n in range(1, 7):
+        for label, x in _pool(ctx, n):
+            xo, low, okeys = _lower_of(x)
+            for og in (True, False):
+                ds = x.to_delayed(optimize_graph=og)
+                code.append(_delayed_text(ds, low))
+                reqs.append(f"boundary todelayed g={low.listing()} outs={','.join(str(low.ids[k]) for k in okeys)} og={int(og)}")
+                inputs.append({"n": n, "x": label, "og": og})
+                nt.append(og and len(ds[0].dask.to_dict()) < len(low.g0) or not og)
+    f.compare(inputs, code, drive(reqs), nt)
+    return f
+
+
+def _fd_text(e, low):
+    """canonical text of a real FromDelayed expression (fields of Driver/Boundary.lean `boundary fromdelayed`)"""
+    whole = dict(e.__dask_graph__())
+    own = e._layer()
+    deps = "".join("{" + low.rgraph(d._layer(), e._name) + "}" for d in e.dependencies())
+    keys = e.__dask_keys__()
+    try:
+        divs = _rdivs(e.divisions)
+    except Exception as ex:  # noqa: BLE001
+        divs = "ERR " + type(ex).__name__
+    return ("G " + low.rgraph(whole, e._name) + " ; own=" + low.rgraph(own, e._name) + " ; deps=" + deps
+            + " ; keys=" + _rself(keys, e._name) + f" ; nparts={e.npartitions} ; divs={divs}"
+            + " ; dangling=" + _rself([k for k in keys if k not in whole], e._name))
+
+
+def fam_from_delayed(ctx):
+    """from_delayed(x.to_delayed(og)[sel], divisions, verify_meta) (+ a `_partitions` selection): whole graph, own layer,
+    every _DelayedExpr._layer, keys, divisions, npartitions, and the refusals"""
+    import dask_expr as dx
+
+    f = Family("graph_equality[from_delayed/FromDelayed/_DelayedExpr: graph, _layer, keys, divisions, npartitions, errors]")
+    reqs, code, inputs, nt = [], [], [], []
+    for n in range(1, 7):
+        for label, x in _pool(ctx, n):
+            xo, low, okeys = _lower_of(x)
+            m = len(okeys)
+            sels = [list(range(m))]
+            if m >= 2:
+                sels += [list(range(m))[::-1], [m - 1], [0, 0], list(range(0, m, 2))]
+            else:
+                sels += [[0, 0]]
+            sels.append([])
+            if ctx.quick:
+                sels = [sels[0]] + ctx.rng.sample(sels[1:], min(2, len(sels) - 1))
+            for og in (True, False):
+                ds = x.to_delayed(optimize_graph=og)
+                for sel in sels:
+                    k = len(sel)
+                    dspecs = [("none", None), (",".join(map(str, range(k + 1))), tuple(range(k + 1)))]
+                    if not ctx.quick or ctx.rng.random() < 0.4:
+                        dspecs += [(",".join(map(str, range(k))) or "-", tuple(range(k))), (",".join(map(str, range(k + 2))), list(range(k + 2))),
+                                   ("sorted", "sorted")]
+                    for dtxt, dval in dspecs:
+                        for verify in ((True, False) if (not ctx.quick or dval is None) else (ctx.rng.random() < 0.5,)):
+                            pars = [None]
+                            if k >= 1 and dtxt in ("none", ",".join(map(str, range(k + 1)))):
+                                pars += [[k - 1], list(range(k))[::-1], [0, 0], list(range(0, k, 2)), [k]]
+                                if ctx.quick:
+                                    pars = [None] + ctx.rng.sample(pars[1:], 2)
+                            for P in pars:
+                                try:
+                                    y = dx.from_delayed([ds[i] for i in sel], meta=xo._meta, divisions=dval, verify_meta=verify)
+                                    e = y.expr
+                                    if P is not None:
+                                        e = e.substitute_parameters({"_partitions": P})
+                                    txt = _fd_text(e, low)
+                                except (TypeError, ValueError, NotImplementedError, IndexError) as ex:
+                                    txt = "ERR " + type(ex).__name__
+                                code.append(txt)
+                                reqs.append(f"boundary fromdelayed g={low.listing()} outs={','.join(str(low.ids[k_]) for k_ in okeys)} og={int(og)} "
+                                            f"sel={','.join(map(str, sel)) or '-'} divs={dtxt} verify={int(verify)} "
+                                            f"parts={'-' if P is None else ','.join(map(str, P))}")
+                                inputs.append({"n": n, "x": label, "og": og, "sel": sel, "divs": dtxt, "verify": verify, "parts": P})
+                                nt.append(True)
+    f.compare(inputs, code, drive(reqs), nt)
+    return f
+
+
+def fam_legacy(ctx):
+    """from_legacy_dataframe(x.to_legacy_dataframe(), optimize=…) is FromGraph of the (culled) graph of x.optimize()"""
+    import dask_expr as dx
+    from dask.utils import key_split
+    from dask_expr.io.io import FromGraph
+
+    f = Family("graph_equality[legacy round trip = FromGraph(cull(graph), divisions, keys)]")
+    reqs, code, inputs, nt = [], [], [], []
+    for n in range(1, 7):
+        for label, x in _pool(ctx, n):
+            xo, low, okeys = _lower_of(x)
+            for opt in (True, False):
+                r = dx.from_legacy_dataframe(x.to_legacy_dataframe(), optimize=opt)
+                e = r.expr
+                ok = (type(e) is FromGraph and list(e.operand("keys")) == okeys and e.operand("name_prefix") == key_split(xo._name)
+                      and type(r) is type(x))
+                code.append(_fg_text(e, low) + f" ; operands={int(ok)}")
+                reqs.append(f"boundary legacy g={low.listing()} outs={','.join(str(low.ids[k]) for k in okeys)} "
+                            f"divs={','.join('N' if d is None else str(int(d)) for d in xo.divisions)} opt={int(opt)}")
+                inputs.append({"n": n, "x": label, "optimize": opt})
+                nt.append(True)
+    f.compare(inputs, code, [m + " ; operands=1" for m in drive(reqs)], nt)
+    return f
+
+
+# --------------------------------------------------------------------------- T4: check_meta (dask) vs its Lean specification
+
+_DT = {"n0": "int64", "n1": "float64", "n2": "uint8", "o0": "object", "o1": "bool", "o2": "datetime64[ns]"}
+
+
+def _dtype(code):
+    from dask.dataframe.utils import UNKNOWN_CATEGORIES
+
+    if code == "c0":
+        return pd.CategoricalDtype(["p", "q"])
+    if code == "c1":
+        return pd.CategoricalDtype(["p", "r"])
+    if code == "cU":
+        return pd.CategoricalDtype([UNKNOWN_CATEGORIES])
+    return _DT[code]
+
+
+def _obj(kind, cols):
+    if kind == 0:
+        return pd.DataFrame({c: pd.Series([], dtype=_dtype(d)) for c, d in cols})
+    if kind == 1:
+        return pd.Series([], dtype=_dtype(cols[0][1]), name=cols[0][0])
+    return pd.Index(pd.Series([], dtype=_dtype(cols[0][1])), name=cols[0][0])
+
+
+def _rsch(kind, cols):
+    return f"{kind}/" + (",".join(f"{c}:{d}" for c, d in cols) or "-")
+
+
+def fam_check_meta(ctx):
+    from dask.dataframe.utils import check_meta
+
+    f = Family("conformance[dask.dataframe.utils.check_meta ~ metaMatches]")
+    codes = ["n0", "n1", "n2", "o0", "o1", "c0", "c1", "cU"]
+    schemas = [(0, [])]
+    for labels in (["a"], ["b"], ["a", "b"], ["b", "a"]):
+        for ds in itertools.product(codes if len(labels) == 1 else ["n0", "n1", "o0", "c0", "cU"], repeat=len(labels)):
+            schemas.append((0, list(zip(labels, ds))))
+    for kind in (1, 2):
+        for name in ("a", "b"):
+            for d in codes + (["o2"] if kind == 1 else []):
+                if kind == 2 and d in ("o1",):
+                    continue
+                schemas.append((kind, [(name, d)]))
+    pairs = [(m, x) for m in schemas for x in schemas]
+    if ctx.quick:
+        pairs = ctx.rng.sample(pairs, 500)
+    reqs, code, inputs, nt = [], [], [], []
+    objs = {}
+    for m, x in pairs:
+        for s_ in (m, x):
+            key = _rsch(*s_)
+            if key not in objs:
+                objs[key] = _obj(*s_)
+        mo, xo = objs[_rsch(*m)], objs[_rsch(*x)]
+        try:
+            r = check_meta(xo, mo, funcname="from_delayed")
+            out = "pass" if r is xo else "?changed"
+        except ValueError:
+            out = "ValueError"
+        code.append(out)
+        reqs.append(f"boundary checkmeta meta={_rsch(*m)} x={_rsch(*x)}")
+        inputs.append({"meta": _rsch(*m), "x": _rsch(*x)})
+        nt.append(out != "pass" or m != x)
+    f.compare(inputs, code, drive(reqs), nt)
+    f.exhaustive = not ctx.quick
+    return f
+
+
 def families(ctx):
-    return [fam_fromgraph]
+    return [fam_fromgraph, fam_fromgraph_struct, fam_persist, fam_to_delayed, fam_from_delayed, fam_legacy, fam_check_meta]
 
 
 def support(ctx, broken):
